@@ -41,9 +41,53 @@ def gen_cfgs(ctx, n):
             elif r < 0.65:
                 ops.append('f0')
         ops.append('v1')
+        if rng.random() < 0.25:
+            # ragged iterations (epoch tails, skipped micro-batches) with accumulation and update intervals > 1: M is the
+            # mean over exactly the micro-batches seen since the last factor update
+            cfg.accum = rng.choice([2, 3])
+            cfg.cap_mb = 0.0
+            cfg.hyper['factor_update_steps'] = rng.choice([2, 2, 3, [1, 2, 2, 1, 3]])
+            ops = ['f1'] * cfg.accum + ['s']
+            for _ in range(rng.randrange(3, ctx.budget(8, 16))):
+                ops += ['f1'] * rng.randrange(1, cfg.accum + 2) + ['s']
+                if rng.random() < 0.4:
+                    ops.append('v1')
+            ops.append('v1')
         cfg.ops = ops
         cfgs.append(cfg)
     return cfgs
+
+
+def half_stream(ctx):
+    """half-precision factors with many rows of large (finite) activations: the batch moment a^T (a / rows) is
+    representable although the un-normalised sum a^T a is not; the factor must equal the float64 recurrence within
+    half-precision rounding and stay finite / PSD"""
+    from kfac.preconditioner import KFACPreconditioner
+    rng = ctx.rng
+    for _ in range(ctx.budget(6, 40)):
+        fd = rng.choice([torch.float16, torch.float16, torch.bfloat16])
+        rows = rng.choice([2048, 4096])
+        mag = rng.choice([6.0, 12.0])
+        lead = rng.choice([(), (4,)])
+        torch.manual_seed(rng.randrange(10**6))
+        m = torch.nn.Sequential(torch.nn.Linear(3, 2))
+        case = {'factor_dtype': str(fd), 'rows': rows, 'magnitude': mag, 'lead': list(lead)}
+        try:
+            p = KFACPreconditioner(m, factor_dtype=fd, factor_decay=0.5, kl_clip=None, compute_method='inverse')
+            x = torch.randn(*lead, rows // (lead[0] if lead else 1), 3) * mag
+            m(x).pow(2).mean().backward()
+            p.step()
+            A = p.state_dict()['layers']['0']['A']
+            a = torch.cat([x.reshape(-1, 3), torch.ones(rows, 1)], 1).double()
+            want = 0.5 * torch.eye(4, dtype=torch.float64) + 0.5 * (a.t() @ a / rows)
+            tol = 2e-2 if fd == torch.bfloat16 else 4e-3
+            if A.dtype != fd or not torch.isfinite(A.float()).all() or kfacsim.relerr(A.double(), want) > tol:
+                ctx.fail(f'half-precision A factor is not decay*I + (1-decay)*M (finite: {bool(torch.isfinite(A.float()).all())}, '
+                         f'relerr {kfacsim.relerr(A.double(), want) if torch.isfinite(A.float()).all() else float("inf"):.2e})', case, 'half-factor')
+        except Exception as e:  # noqa: BLE001
+            ctx.fail(f'half-precision factor run raised {type(e).__name__}: {e}', case, 'half-factor-raised')
+        ctx.evaluations += 1
+        ctx.count('half-stream')
 
 
 def dtype_stream(ctx):
@@ -180,6 +224,7 @@ def run(ctx):
                       oracles=(kfacsim.oracle_factors,), whole_only_oracles=False)
     dtype_stream(ctx)
     scaler_stream(ctx)
+    half_stream(ctx)
 
 
 def search(ctx):
@@ -188,9 +233,11 @@ def search(ctx):
 
 def replay(ctx, payload):
     c = payload.get('case', {})
-    if 'factor_dtype' in c:
+    if 'rows' in c:
+        half_stream(ctx)
+    elif 'factor_dtype' in c:
         dtype_stream(ctx)
-    elif 'scale' in c:
+    elif 'scale' in c or 'scales' in c:
         scaler_stream(ctx)
     else:
         return kfacsim.replay_case(ctx, payload, STREAMS, oracles=(kfacsim.oracle_factors,))
